@@ -435,7 +435,8 @@ def unlink_idiom(prog, chk, rid, classes=tuple(NODE)):
                 twice = any(f.find_path(a, {b}) is not None for a in size for b in size)
                 for ok, tag, msg, pth in (
                         (p1 is None and head and mid, "forward-unlink", "a path leaves the predecessor's `next` (or `_begin`) pointing at the removed node", p1),
-                        (p2 is None and head2 and mid2, "backward-unlink", "a path leaves the successor's `prev` pointing at the removed node", p2),
+                        # `next->prev = R->prev` alone is right in both cases (R->prev is null when R is first); the separate `= 0` store is optional
+                        (p2 is None and mid2, "backward-unlink", "a path leaves the successor's `prev` pointing at the removed node", p2),
                         (p3 is None and size and not twice, "size-decrement", "`_size` is not decremented exactly once on every path", p3)):
                     if ok:
                         chk.ok(rid, f, tag, where, "store found on every path", evals=2)
@@ -808,7 +809,7 @@ def bucket_index(prog, chk, rid, classes=("HashMap", "HashSet", "PoolMap")):
                         while p is not None and f.nodes[p]["k"] in ("CStyleCastExpr",):
                             x, p = p, f.up(p)
                         if p is not None and f.nodes[p]["k"] == "BinaryOperator" and f.r(f.nodes[p]["c"][0]) == "this->data":
-                            sz = q.no_casts(f.r(n["asize"]))
+                            sz = q.no_casts(q.xr(f, n["asize"]))        # a size kept in a local is expanded
                             if re.match(r"^\(sizeof\(.*Item \*\) \* this->capacity\)$", sz):
                                 chk.ok(rid, f, "bucket array sized by capacity", f.where(i), sz)
                             else:
